@@ -44,6 +44,8 @@ and whether a default handler was installed -/
 structure Cfg where
   handlers : List Nat
   hasDefault : Bool
+  /-- the client itself has written a CloseConnection (a local `Shutdown` is in progress) by the time the stream ends -/
+  closing : Bool := false
 deriving Repr, Inhabited
 
 /-- the environment of one frame: ids the write loop registered / callers cancelled since the previous lookup
@@ -156,7 +158,7 @@ def dispatch (cfg : Cfg) (i : Nat) (h : Header) (awaited : Bool) (beh : Beh) (s 
 
 inductive End where
   | err          -- the loop returned an error (not ErrClientClosed)
-  | waitDone     -- EOF after a CloseConnectionResponse: blocks on `c.done`, then returns ErrClientClosed
+  | waitDone     -- EOF after a CloseConnectionResponse to our own CloseConnection: blocks on `c.done`, then returns ErrClientClosed
   | panic        -- a panic escaped the goroutine
   | fuel         -- model artefact, unreachable from `rd`
 deriving DecidableEq, Repr, Inhabited
@@ -184,12 +186,14 @@ def Result.cons (off : Nat) (i : Nat) (h : Header) (out : FrameOut) (r : Result)
            unhandled := (if out.unhandled then [i] else []) ++ r.unhandled,
            allocs := Gen.HeaderSz :: out.allocs ++ r.allocs }
 
-/-- `handleIncoming`: `i` = index of the next frame, `off` = its offset, `closed` = a CloseConnectionResponse was seen -/
+/-- `handleIncoming`: `i` = index of the next frame, `off` = its offset, `closed` = a CloseConnectionResponse was seen.
+A clean EOF after a CloseConnectionResponse waits for the local close only if this client had asked to close
+(`closeSent`, set by the write loop); from a peer that sends the response unasked it is an error like any other EOF. -/
 def rdLoop (cfg : Cfg) (env : Nat → Step) : Nat → Nat → Nat → List Nat → Bool → Bytes → Result
   | 0, _, off, await, _, _ => { await := await, consumed := off, fin := .fuel }
   | fuel+1, i, off, await, closed, s =>
     match readHeader s with
-    | .eof => { allocs := [Gen.HeaderSz], await := await, consumed := off, fin := if closed then .waitDone else .err }
+    | .eof => { allocs := [Gen.HeaderSz], await := await, consumed := off, fin := if closed && cfg.closing then .waitDone else .err }
     | .short => { allocs := [Gen.HeaderSz], await := await, consumed := off + s.length, fin := .err }
     | .bad => { allocs := [Gen.HeaderSz], await := await, consumed := off + Gen.HeaderSz, fin := .err }
     | .ok h rest =>
@@ -252,7 +256,7 @@ def expectedDeliveries (cfg : Cfg) (i : Nat) (f : WFrame) (awaited : Bool) (beh 
 
 def specRun (cfg : Cfg) (env : Nat → Step) : Nat → Nat → List Nat → Bool → List WFrame → Result
   | _, off, await, closed, [] =>
-    { allocs := [Gen.HeaderSz], await := await, consumed := off, fin := if closed then .waitDone else .err }
+    { allocs := [Gen.HeaderSz], await := await, consumed := off, fin := if closed && cfg.closing then .waitDone else .err }
   | i, off, await, closed, f :: fs =>
     let st := env i
     let aw := awaitNow await st
